@@ -149,6 +149,26 @@ type assocClient struct {
 	inBad    string
 }
 
+// Inline: predicates, and helpers of the operator loop that build the InExpr / BinaryExpr nodes.
+func (c *assocClient) Inline(e *Engine, call *ast.CallExpr, callee *types.Func, decl *ast.FuncDecl) bool {
+	if c.InlinePredicates.Inline(e, call, callee, decl) {
+		return true
+	}
+	if callee == c.self || callee.Pkg() == nil || callee.Pkg().Path() != PathParser || !smallBody(decl) {
+		return false
+	}
+	builds := false
+	ast.Inspect(decl.Body, func(n ast.Node) bool {
+		if cl, ok := n.(*ast.CompositeLit); ok {
+			if t := e.Info.TypeOf(cl); t != nil && (types.Identical(t, c.inT) || types.Identical(t, c.binT)) {
+				builds = true
+			}
+		}
+		return !builds
+	})
+	return builds
+}
+
 // LoopBack: an iteration of the operator loop that built an `in` test goes on with that test as the left operand.
 func (c *assocClient) LoopBack(e *Engine, st *State, loop ast.Stmt) {
 	fs, ok := loop.(*ast.ForStmt)
@@ -263,14 +283,14 @@ func (c *assocClient) Visit(e *Engine, st *State, n ast.Node) *State {
 		}
 		// shape: X is the accumulated left operand, Op is the current operator's kind
 		xv := litField(e.Info, cl, "X")
-		okX := xv != nil && objOf(e.Info, xv) == c.xParam
+		okX := xv != nil && objOf(e.Info, e.ResolveExpr(xv)) == c.xParam
 		e.Site("C07/assoc", key+": left operand", cl, okX, "left operand is everything parsed so far at this level (left associativity)")
 		if !okX {
 			e.Site("C07/assoc", key+": left operand", cl, false, "the left operand of the new BinaryExpr is not the expression accumulated so far")
 		}
 	case types.Identical(t, c.inT):
 		xv := litField(e.Info, cl, "X")
-		okX := xv != nil && objOf(e.Info, xv) == c.xParam
+		okX := xv != nil && objOf(e.Info, e.ResolveExpr(xv)) == c.xParam
 		key := fmt.Sprintf("%s InExpr construction #%d: left operand", c.fn, c.ordinalLit(e, cl))
 		e.Site("C07/in", key, cl, okX, "`x in (...)` takes everything parsed so far at this level as its left operand")
 		if !okX {
@@ -283,7 +303,7 @@ func (c *assocClient) Visit(e *Engine, st *State, n ast.Node) *State {
 
 func (c *assocClient) ordinalLit(e *Engine, lit *ast.CompositeLit) int {
 	n, idx := 0, 0
-	ast.Inspect(e.Func.Body, func(x ast.Node) bool {
+	ast.Inspect(e.CurFunc().Body, func(x ast.Node) bool {
 		if cl, ok := x.(*ast.CompositeLit); ok && types.Identical(e.Info.TypeOf(cl), c.inT) {
 			n++
 			if cl == lit {
